@@ -121,6 +121,14 @@ def run(ctx: Ctx):
     ctx.ob("C14-O4", "R1 STATUS-GUARD", cd, "an inter-component edge is added only between different components, keyed by the component of each endpoint", ok, f"{sorted(at)}", node=a)
     t = ast.unparse(cd.node)
     ctx.ob("C14-O4", "R5 PAIRING", cd, "the component map is built from the partition SCC returned for the same node list and callback", "scc_result = strongly_connected_components(node_list, neighbors)" in t and "components: list[list[S]] = scc_result.solution" in t and "node_to_component[node] = i" in t, "", node=cd.node)
+    sites_cd = result_sites(cd)
+    okp = len(sites_cd) == 1
+    if okp:
+        sol = sites_cd[0].arg("solution")
+        okp = isinstance(sol, ast.Tuple) and [ast.unparse(e) for e in sol.elts] == ["condensed_nodes", "adjacency"]
+        adj_defs = [n.value for n in own_nodes(cd.node) if isinstance(n, (ast.Assign, ast.AnnAssign)) and ast.unparse(n.targets[0] if isinstance(n, ast.Assign) else n.target) == "adjacency"]
+        okp = okp and len(adj_defs) == 1 and "condensed_edges[i]" in ast.unparse(adj_defs[0])
+    ctx.ob("C14-O4", "R14 GATE", cd, "condense has one publication, whose adjacency is built from the filtered inter-component edge set", okp, f"{len(sites_cd)} Result construction(s): a second path (fast path) bypasses the different-components filter, so self loops or intra-component edges leak into the condensation", node=sites_cd[-1].call if sites_cd else cd.node)
     ctx.ob("C14-O4", "R5 PAIRING", cd, "condensed nodes are the frozen components, adjacency is keyed by them", "[frozenset(c) for c in components]" in t and "condensed_nodes[i]: [condensed_nodes[j] for j in condensed_edges[i]]" in t, "", node=cd.node)
     generic_sweeps(ctx)
 
@@ -171,6 +179,11 @@ def _v_condense_self_edges(tree):
     M.replace_stmt(g, lambda s: isinstance(s, ast.If) and M.src_is(s.test, "v_comp != w_comp"), lambda s: s.body)
 
 
+def _v_condense_fast_path(tree):
+    g = M.find_func(tree, "condense")
+    M.replace_stmt(g, lambda s: isinstance(s, ast.AnnAssign) and M.src_has(s.target, "node_to_component"), lambda s: M.stmts("if len(components) == len(node_list):\n    ns = set(node_list)\n    return Result(([frozenset([v]) for v in node_list], {frozenset([v]): [frozenset([w]) for w in dict.fromkeys(neighbors(v)) if w in ns] for v in node_list}), len(node_list), scc_result.iterations, len(node_list))") + [s])
+
+
 def _t_reformat(tree):
     pass
 
@@ -184,5 +197,6 @@ VARIANTS = [
     M.Variant("Kahn enqueues before the in-degree reaches zero", SC, _v_kahn_no_enqueue_test, "C14-O3"),
     M.Variant("topological_sort INFEASIBLE only when nothing was output", SC, _v_kahn_verdict, "C14-O3"),
     M.Variant("condensation keeps intra-component edges", SC, _v_condense_self_edges, "C14-O4"),
+    M.Variant("condense fast path for all-singleton components keeps self loops (seed C14-D)", SC, _v_condense_fast_path, "C14-O4"),
     M.Variant("twin: reformat", SC, _t_reformat, None),
 ]
